@@ -255,12 +255,13 @@ PROPS = {
     },
     "C01": {
         "coq": "Properties/C01.v",
-        "level_text": "PARTIAL. The full statement (C01_full_statement: image installed and run on the reference datapath == source semantics, invocation by invocation, for every "
-                      "well-typed accepted program outside the clobber class and every input sequence) is stated over executable definitions of both sides; proved so far: "
-                      "C01_operators_agree (machine instruction semantics == source operator semantics incl. every fault rule, for all 64-bit operands), C01_clobbers_refuted "
-                      "(the statement is false without the clobber hypothesis: the recorded finding, with witness) and kernel-evaluated non-vacuity witnesses (fallthrough/report, "
-                      "volatile reset, ewma, conditionals, locals, boundary inputs, a fault). The verdict rests on these plus three correspondence legs run on every check: portus' compiler "
-                      "vs the compiler model (byte-identical images, C03/C10/C13 streams), the libccp model vs the compiled libccp C code, and the source semantics vs what the real "
+        "level_text": "PROVED end to end on the model: C01_compile_correct. For every source text in the property's quantifier (accepted by the compiler and by the datapath, well typed under "
+                      "the documented discipline, no operand overwritten before use, no legacy-infinity initial value) and every finite sequence of 64-bit measurement vectors, the image the compiler model "
+                      "emits, wrapped in the install message, read by the libccp model, selected by a change-program message and run, yields invocation by invocation the same fault code, window and rate "
+                      "settings, report contents and variable values as the source semantics (an independent tree-walking evaluator over names). Layers proved separately for all register states: "
+                      "C01_expression_simulation, C01_events_simulation; C01_operators_agree; each hypothesis is shown necessary by a refutation witness (C01_clobbers_refuted: the recorded finding; "
+                      "C01_unbounded_inputs_refuted). The tie of the two models to the code is checked on every run by three correspondence legs: portus' compiler vs the compiler model (byte-identical images, "
+                      "C03/C10/C13 streams), the libccp model vs the compiled libccp C code, and the source semantics vs what the real "
                       "libccp does with the bytes portus produced (return code, cwnd/rate callbacks, report bytes and all registers after every invocation).",
         "level_note": "Coq kernel (vm_compute for the witnesses); no axioms; libccp 1.2.0 compiled unmodified is the reference datapath (oracle); SrcSem is a specification written "
                       "independently of the compiler model (no registers/temporaries/placeholders); libccp's legacy reading of an initial value 0x3fffffff as infinity puts such programs outside the quantifier.",
